@@ -23,13 +23,15 @@ deriving Repr, DecidableEq
 inductive Fault where
   | refused | tlsFailure | closedBeforeHeader | closedMidHeader | reset
   | stallConnect | stallHeader | stallBody
-  | garbageHeader | headerTooLong | statusOutOfRange | headerNotUtf8 | bodyTooLarge | badUpstreamUrl
+  | garbageHeader | statusSpelling | missingSeparator | metaControl | headerTooLong | statusOutOfRange | headerNotUtf8
+  | bodyTooLarge | badUpstreamUrl
 deriving Repr, DecidableEq
 
 def Fault.cls : Fault → FailClass
   | .refused | .tlsFailure | .closedBeforeHeader | .closedMidHeader | .reset => .connection
   | .stallConnect | .stallHeader | .stallBody => .timeout
-  | .garbageHeader | .headerTooLong | .statusOutOfRange | .headerNotUtf8 | .bodyTooLarge | .badUpstreamUrl => .other
+  | .garbageHeader | .statusSpelling | .missingSeparator | .metaControl | .headerTooLong | .statusOutOfRange | .headerNotUtf8
+  | .bodyTooLarge | .badUpstreamUrl => .other
 
 /-- outcome of the single upstream fetch -/
 inductive Fetch where
